@@ -301,3 +301,19 @@ Proof.
       all: destruct (Hs _ _ _ _ _ eq_refl); congruence.
     + rewrite Hx in Hc. specialize (Hc eq_refl). discriminate.
 Qed.
+
+(* ---------- resumed TLS sessions ---------- *)
+(* whether the TLS session was resumed does not matter to the outcome of StartTLS *)
+Lemma start_tls_resumed_irrelevant t c resumed : start_tls_r t c resumed = start_tls t c.
+Proof. unfold start_tls_r, start_tls_on, start_tls. cbn [andb]. rewrite orb_false_r. reflexivity. Qed.
+
+(* ... and it must not: trusting a resumed session accepts a certificate that is valid for ServerName
+   only (the session was cached by the attempt that the domain check refused) *)
+Lemma start_tls_skip_on_resume_refuted :
+  exists t c, t_skip t = false /\ valid_for c (t_domain t) = false /\
+              start_tls_on true t c false = false /\ start_tls_on true t c true = true.
+Proof.
+  exists {| t_skip := false; t_servername := s_ [121]%Z; t_domain := s_ [120]%Z |},
+         {| c_trusted := true; c_names := [s_ [121]%Z] |}.
+  repeat split.
+Qed.
